@@ -478,6 +478,10 @@ Eval(dyn, ud, F, q2, u2, tasks, cons, felems, felems2) ==
                IN [perr |-> MV(RA, VSub(pS, VAdd(BodyP(c.b1), rP)))[i],
                    verr |-> MV(RA, dv)[i],
                    aerr |-> MV(RA, VSub(da, VScale(R(2), Cross(A.w, dv))))[i]]
+          [] c.type = "ccoord" ->      \* ConstantCoordinate on a translational coordinate k (whose rate is speed k): perr = q - s
+               [perr |-> R(q[c.b1][c.k].k - c.s), verr |-> R(uu[c.b1][c.k]), aerr |-> R(udd[c.b1][c.k])]
+          [] c.type = "cacc" ->        \* ConstantAcceleration (acceleration-only): aerr = udot - s
+               [perr |-> Zero, verr |-> Zero, aerr |-> R(udd[c.b1][c.k] - c.s)]
           [] c.type = "cspeed" ->
                [perr |-> Zero, verr |-> R(uu[c.b1][c.k] - c.s), aerr |-> R(udd[c.b1][c.k])]
       ConsAt0 == TLCEval([k \in 1..NC |-> ConsErr(cons[k], Vu, u, ZeroU)])          \* the state's errors; aerr for udot = 0
@@ -487,7 +491,8 @@ Eval(dyn, ud, F, q2, u2, tasks, cons, felems, felems2) ==
       \* G, one row per constraint: the velocity error is affine in u, its linear part column by column
       VerrZero == TLCEval([k \in 1..NC |-> ConsErr(cons[k], Vels(X, ZeroU, ZeroU), ZeroU, ZeroU).verr])
       G == TLCEval([k \in 1..NC |-> TLCEval([j \in 1..ND |->
-              RSub(ConsErr(cons[k], Vels(X, UnitU(Dofs[j]), ZeroU), UnitU(Dofs[j]), ZeroU).verr, VerrZero[k])])])
+              IF cons[k].type = "cacc" THEN (IF Dofs[j] = <<cons[k].b1, cons[k].k>> THEN One ELSE Zero)      \* acceleration-only: d aerr / d udot
+              ELSE RSub(ConsErr(cons[k], Vels(X, UnitU(Dofs[j]), ZeroU), UnitU(Dofs[j]), ZeroU).verr, VerrZero[k])])])
       \* the SAME model at the second coordinate / speed set (the real State object is re-used for it)
       X2 == TLCEval(PosesQ(q2))
       V2 == TLCEval(VelsQ(X2, q2, u2, ZeroU))
